@@ -1,0 +1,86 @@
+//! Verification hooks. Compiled only with `--cfg librqbit_utp_verif`; with the cfg off this
+//! module does not exist and nothing in the crate refers to it.
+//!
+//! Events are plain key/value records handed to `UtpEnvironment::verif_event`, so that the
+//! harness that supplies the environment decides what to do with them (there is no global
+//! state in the library).
+
+#[derive(Debug, Clone)]
+pub enum Val {
+    I(i64),
+    S(String),
+    B(Vec<u8>),
+    Bool(bool),
+}
+
+macro_rules! val_from_int {
+    ($($t:ty),*) => {
+        $(impl From<$t> for Val {
+            fn from(v: $t) -> Self {
+                Val::I(v as i64)
+            }
+        })*
+    };
+}
+val_from_int!(u8, u16, u32, u64, usize, i8, i16, i32, i64, isize);
+
+impl From<bool> for Val {
+    fn from(v: bool) -> Self {
+        Val::Bool(v)
+    }
+}
+impl From<String> for Val {
+    fn from(v: String) -> Self {
+        Val::S(v)
+    }
+}
+impl From<&str> for Val {
+    fn from(v: &str) -> Self {
+        Val::S(v.to_owned())
+    }
+}
+impl From<Vec<u8>> for Val {
+    fn from(v: Vec<u8>) -> Self {
+        Val::B(v)
+    }
+}
+impl From<&[u8]> for Val {
+    fn from(v: &[u8]) -> Self {
+        Val::B(v.to_owned())
+    }
+}
+impl From<std::net::SocketAddr> for Val {
+    fn from(v: std::net::SocketAddr) -> Self {
+        Val::S(v.to_string())
+    }
+}
+impl From<crate::seq_nr::SeqNr> for Val {
+    fn from(v: crate::seq_nr::SeqNr) -> Self {
+        Val::I(v.0 as i64)
+    }
+}
+impl From<std::time::Duration> for Val {
+    // microseconds
+    fn from(v: std::time::Duration) -> Self {
+        Val::I(v.as_micros().min(i64::MAX as u128) as i64)
+    }
+}
+
+#[derive(Debug, Clone)]
+pub struct Event {
+    pub kind: &'static str,
+    pub fields: Vec<(&'static str, Val)>,
+}
+
+/// verif_event!(env, "kind", key = value, ...)
+macro_rules! verif_event {
+    ($env:expr, $kind:expr $(, $k:ident = $v:expr)* $(,)?) => {
+        $crate::traits::UtpEnvironment::verif_event(
+            &$env,
+            $crate::verif::Event {
+                kind: $kind,
+                fields: vec![$((stringify!($k), $crate::verif::Val::from($v))),*],
+            },
+        )
+    };
+}
